@@ -31,7 +31,19 @@ class BadDict(dict):
         return dict.__getitem__(self, k)
 
 
-CLASSES = dict(codec.PLAIN, baddict=BadDict)
+class BadList(list):
+    """a sequence whose iteration raises when it reaches the item '!' (the items before it have been produced);
+    no instance __dict__, so that it is a sequence and nothing else for the registry"""
+    __slots__ = ()
+
+    def __iter__(self):
+        for v in list.__iter__(self):
+            if isinstance(v, str) and v == '!':
+                raise RuntimeError('iteration failed part-way')
+            yield v
+
+
+CLASSES = dict(codec.PLAIN, baddict=BadDict, badlist=BadList)
 
 
 class SlotTuple(tuple):
